@@ -765,7 +765,7 @@ func secretFromProvider(c *Ctx, r *Report, rule, consequence string) {
 // pointerLimitAdmitsOwnOutput: the unpacker's hop limit admits what the packer can produce: a name of 127 one-octet
 // labels can sit behind one whole-name pointer plus one pointer per label but the last: 127 hops.
 func pointerLimitAdmitsOwnOutput(c *Ctx, r *Report, rule string) {
-	r.rule(rule, 1, "maxCompressionPointers is at least (maxDomainNameWireOctets+1)/2 - 1")
+	r.rule(rule, 2, "maxCompressionPointers, and the largest hop count the comparison in UnpackDomainName lets through, are at least (maxDomainNameWireOctets+1)/2 - 1")
 	maxPtr, ok1 := c.constInt("maxCompressionPointers")
 	maxName, ok2 := c.constInt("maxDomainNameWireOctets")
 	if !ok1 || !ok2 {
@@ -773,6 +773,7 @@ func pointerLimitAdmitsOwnOutput(c *Ctx, r *Report, rule string) {
 		return
 	}
 	need := (maxName+1)/2 - 1
+	hopLimitAdmits(c, r, rule, need)
 	r.check(maxPtr >= need, rule, "maxCompressionPointers", "", fmt.Sprintf("%d >= %d", maxPtr, need), "maxCompressionPointers = %d, but a name of %d one-octet labels whose suffixes were all packed before, used a second time, is written as a pointer to itself: %d labels behind %d pointers. Pack with Compress emits it, UnpackDomainName refuses it with 'too many compression pointers', so the compressed form of a message does not decode to the message", maxPtr, need, need, need)
 }
 
@@ -889,4 +890,52 @@ func writeDeadline(c *Ctx, r *Report, rule string) {
 		}
 	})
 	r.check(set, rule, "Server.serveTCPConn:writeTimeout", c.pos(sv.Pos()), "srv.getWriteTimeout()", "the response writer of a TCP connection is not given the server's write timeout: response.Write then arms no deadline")
+}
+
+// hopLimitAdmits: the comparison that bounds the hop counter of UnpackDomainName lets `need` hops through (the
+// constant alone does not say so: `>=` instead of `>` admits one hop less).
+func hopLimitAdmits(c *Ctx, r *Report, rule string, need int64) {
+	fn := c.ssaFunc("UnpackDomainName")
+	if fn == nil {
+		r.cerr(rule, "UnpackDomainName", "function not found")
+		return
+	}
+	r.fn(fnDisplay(fn))
+	back := backEdges(fn)
+	n := 0
+	for _, b := range fn.Blocks {
+		if !backTarget(fn, b) {
+			continue
+		}
+		for _, in := range b.Instrs {
+			ptr, ok := in.(*ssa.Phi)
+			if !ok || ptr.Comment != "ptr" {
+				continue
+			}
+			for i, p := range b.Preds {
+				if !back[edge{p, b}] || ptr.Edges[i] == ssa.Value(ptr) {
+					continue
+				}
+				pe := ptr.Edges[i]
+				facts := factsAt(fn, p)
+				if ef, ok := edgeFact(p, b); ok {
+					facts = append(facts, ef)
+				}
+				best, found := int64(0), false
+				for _, f := range facts {
+					if _, hi, _, hasHi := intervalFromFact(f, isValue(pe)); hasHi && (!found || hi < best) {
+						best, found = hi, true
+					}
+				}
+				if !found {
+					continue // C02.R1.pointer-loop reports a missing bound
+				}
+				n++
+				r.check(best >= need, rule, fmt.Sprintf("UnpackDomainName:hops#%d", n), c.pos(p.Instrs[len(p.Instrs)-1].Pos()), fmt.Sprintf("%d hops admitted >= %d", best, need), "the hop counter is let through up to %d only, but a name of %d one-octet labels whose suffixes were all packed before is written with %d pointers: Pack with Compress emits it and UnpackDomainName refuses it with 'too many compression pointers'", best, need, need)
+			}
+		}
+	}
+	if n == 0 {
+		r.cerr(rule, "UnpackDomainName:hops", "no bounded hop counter found on a back edge of UnpackDomainName")
+	}
 }
